@@ -2,7 +2,9 @@
 case families, runners, output parsers, evidence."""
 import hashlib, json, os, subprocess, sys, time, shutil, re
 
-VERIF = "/verif"; REPO = "/repo"; HEADER = REPO + "/include/ctpg/ctpg.hpp"
+# the two roots can be redirected (only tools/matrix_all.py does this, to run seeded changes in scratch copies in parallel)
+VERIF = os.environ.get("CTPG_VERIF_ROOT") or os.path.dirname(os.path.dirname(os.path.abspath(__file__)))
+REPO = os.environ.get("CTPG_REPO") or "/repo"; HEADER = REPO + "/include/ctpg/ctpg.hpp"
 CACHE = VERIF + "/.cache"; COQ = VERIF + "/coq"
 NPROC = os.cpu_count() or 8
 
@@ -26,6 +28,19 @@ def sha(*parts):
     return h.hexdigest()[:16]
 
 def header_hash(): return sha(HEADER)
+
+def prune_cache(keep=8):
+    """the cache is keyed by the header's hash (and the model's): keep the newest few entries of each kind"""
+    for base in (CACHE, CACHE + "/runs", CACHE + "/fixed"):
+        if not os.path.isdir(base): continue
+        groups = {}
+        for n in os.listdir(base):
+            p = os.path.join(base, n)
+            if not os.path.isdir(p) or n in ("runs", "fixed", "extract"): continue
+            groups.setdefault(n.rsplit("-", 1)[0], []).append((os.path.getmtime(p), p))
+        for k, lst in groups.items():
+            for _, p in sorted(lst, reverse=True)[keep:]:
+                shutil.rmtree(p, ignore_errors=True)
 
 class Broken(Exception):
     """the machinery (not the property) is broken: build failure of our own tools etc."""
